@@ -221,7 +221,9 @@ var c11Vocab = strings.Fields("SELECT select FROM from WHERE where GROUP BY grou
 	"'5s' '1h' 'abc' '' 'x'' \"d\" 'LIMIT 5' 'ts' 'ms' 'ss' '%a%' '5x' '-5s' true false nil")
 
 func c11GenInput(r *rand.Rand, corpus []string) (string, string) {
-	switch k := r.Intn(20); {
+	switch k := r.Intn(22); {
+	case k >= 20:
+		return c11SemanticError(r), "well_formed_statement_with_semantic_error"
 	case k < 6:
 		return c11Soup(r), "token_soup"
 	case k < 12:
@@ -269,6 +271,43 @@ func c11GenInput(r *rand.Rand, corpus []string) (string, string) {
 	default:
 		return c11Bomb(r), "repetition_bomb"
 	}
+}
+
+// c11SemanticError: a statement that is syntactically fine and wrong in exactly one semantic respect (a function
+// that does not exist, an aggregate where none is allowed, a bad window argument), with the offending call buried
+// in expressions of very different lengths, written with and without blanks around the operators: the error
+// paths compute positions and contexts from the text, so they see these lengths.
+func c11SemanticError(r *rand.Rand) string {
+	sep := pick(r, []string{"", "", " ", "  "})
+	ops := []string{"+", "-", "*", "/"}
+	n := 1 + r.Intn(14)
+	if r.Intn(6) == 0 {
+		n = 20 + r.Intn(60)
+	}
+	var e strings.Builder
+	for i := 0; i < n; i++ {
+		if i > 0 {
+			e.WriteString(sep + pick(r, ops) + sep)
+		}
+		e.WriteString(pick(r, []string{"a", "b", "c", "x", "temperature", "d.v", "2", "3.5", "`k 1`"}))
+	}
+	bad := pick(r, []string{"nofn", "xsum9", "no_such_function", "Avgg", "f", "lagg", "NOFN"}) + "(" + e.String() + ")"
+	cmp := sep + pick(r, []string{">", "<=", "=", "!="}) + sep + "0"
+	switch r.Intn(7) {
+	case 0:
+		return "SELECT " + bad + " FROM s"
+	case 1:
+		return "SELECT " + bad + ",b FROM s"
+	case 2:
+		return "select " + bad + " as v from s where x" + cmp
+	case 3:
+		return "SELECT a FROM s WHERE " + bad + cmp
+	case 4:
+		return "SELECT k, count(*) AS c FROM s GROUP BY k, TumblingWindow('1s') HAVING " + bad + cmp
+	case 5:
+		return "SELECT k, sum(" + bad + ") AS c FROM s GROUP BY k, CountingWindow(3)"
+	}
+	return "SELECT CASE WHEN " + bad + cmp + " THEN 1 ELSE 0 END AS r FROM s"
 }
 
 func c11Soup(r *rand.Rand) string {
